@@ -68,6 +68,19 @@ pub trait RW: Sized {
             final(self).written() == old(self).written(), final(self).flushed_len() == old(self).flushed_len(),
             r.is_ok() ==> old(self).inp().len() >= 4 && r.unwrap() == be32(old(self).inp())
                 && final(self).inp() == old(self).inp().skip(4) && final(self).pos() == old(self).pos() + 4;
+    /// `read`: returns ANY non-empty prefix of what is available (0 only at end of input / empty buffer) -- code that
+    /// needs the whole buffer must use read_exact
+    fn read<B: ByteBuf + ?Sized>(&mut self, buf: &mut B) -> (r: IoResult<usize>)
+        ensures
+            final(self).written() == old(self).written(), final(self).flushed_len() == old(self).flushed_len(),
+            final(buf).bb().len() == old(buf).bb().len(),
+            r.is_ok() ==> {
+                let n = r.unwrap() as int;
+                &&& 0 <= n <= old(buf).bb().len() && n <= old(self).inp().len()
+                &&& final(buf).bb().take(n) == old(self).inp().take(n)
+                &&& final(self).inp() == old(self).inp().skip(n)
+                &&& final(self).pos() == old(self).pos() + n
+            };
     /// fills the whole buffer or fails (UnexpectedEof when fewer bytes remain)
     fn read_exact<B: ByteBuf + ?Sized>(&mut self, buf: &mut B) -> (r: IoResult<usize>)
         ensures
